@@ -123,3 +123,22 @@ def none_branch(e, label, is_subject):
     if op in (ast.IsNot, ast.NotEq):
         return "notnone" if label == "true" else "none"
     return None
+
+
+def atomic_facts(e, label):
+    """Atomic conditions known to hold when test e takes branch `label`: [(expr, True|False)] with negations, `and` (true
+    branch) and `or` (false branch) taken apart.  `a != b` known false is reported as (`a == b`, True)."""
+    e, label = strip_not(e, label)
+    truth = label == "true"
+    if isinstance(e, ast.BoolOp):
+        if (isinstance(e.op, ast.And) and truth) or (isinstance(e.op, ast.Or) and not truth):
+            out = []
+            for v in e.values:
+                out += atomic_facts(v, label)
+            return out
+        return [(e, truth)]
+    if isinstance(e, ast.Compare) and len(e.ops) == 1 and type(e.ops[0]) in (ast.NotEq, ast.IsNot, ast.NotIn):
+        pos = {ast.NotEq: ast.Eq, ast.IsNot: ast.Is, ast.NotIn: ast.In}[type(e.ops[0])]
+        flipped = ast.copy_location(ast.Compare(left=e.left, ops=[pos()], comparators=e.comparators), e)
+        return [(flipped, not truth)]
+    return [(e, truth)]
